@@ -3,6 +3,7 @@ package c20
 
 import (
 	"crypto/tls"
+	"encoding/base64"
 	"fmt"
 	"math/rand"
 	"net"
@@ -177,7 +178,93 @@ func roundTrip(t vkit.TB, prefix, value string, alphabet int, foreign []string, 
 			key = "C20/roundtrip/gt100chunks"
 		}
 		vkit.Violate(t, prop, key, fmt.Sprintf("round trip of a %d-byte payload (%d chunks) returned %d bytes, err=%v, first difference at %d", len(value), len(entries), len(got), err, c.FirstDiff), c)
+		return
 	}
+	// The same list is recombined more than once in practice (the listener scans one
+	// ClientHello list under each of its prefixes): recombining it again, also after a
+	// scan under the other prefix, must reproduce the payload again.
+	for _, again := range []string{otherPrefix(prefix), prefix} {
+		var got2 string
+		var err2 error
+		if pv, stack := vkit.Guard(func() { got2, err2 = nodetls.CombineFromNextProtos(again, list) }); pv != nil {
+			vkit.Violate(t, prop, "C20/panic/combine-wellformed", fmt.Sprintf("CombineFromNextProtos panicked on a repeated scan: %v", pv), map[string]any{"case": c, "stack": stack})
+			return
+		}
+		if again == prefix && (err2 != nil || got2 != value) {
+			vkit.Violate(t, prop, "C20/roundtrip/repeated-combine", fmt.Sprintf("recombining the same list a second time returned %d bytes (err=%v) instead of the %d-byte payload", len(got2), err2, len(value)), c)
+			return
+		}
+	}
+}
+
+func otherPrefix(p string) string {
+	if p == prefixes[0] {
+		return prefixes[1]
+	}
+	return prefixes[0]
+}
+
+// TestProp_TwoPayloads: one list carrying a payload under EACH request prefix, the
+// two chunk sequences interleaved with each other and with foreign names (each
+// sequence keeps its own order): under each prefix the list recombines to that
+// prefix's payload, whichever is recombined first, and again on a second pass.
+func TestProp_TwoPayloads(t *testing.T) {
+	rec := vkit.Rec(prop)
+	vkit.SetRapidChecks(vkit.N(400))
+	rapid.Check(t, func(t *rapid.T) {
+		val := func(label string) string {
+			n := rapid.SampledFrom([]int{1, 50, 213, 214, 500, 1000, 2500}).Draw(t, label+"-len")
+			return base64.RawStdEncoding.EncodeToString(rapid.SliceOfN(rapid.Byte(), n, n).Draw(t, label))[:n]
+		}
+		vals := map[string]string{prefixes[0]: val("a"), prefixes[1]: val("b")}
+		seqs := map[string][]string{}
+		for p, v := range vals {
+			e, err := nodetls.BreakIntoNextProtos(p, v)
+			if err != nil {
+				t.Fatalf("break: %v", err)
+			}
+			seqs[p] = e
+		}
+		// merge: draw, step by step, which source supplies the next entry
+		var list []string
+		ia, ib := 0, 0
+		for ia < len(seqs[prefixes[0]]) || ib < len(seqs[prefixes[1]]) {
+			switch rapid.IntRange(0, 3).Draw(t, "next") {
+			case 0:
+				list = append(list, rapid.SampledFrom([]string{"h2", "http/1.1", "acme-tls/1", "v1-nodee-other-", "x"}).Draw(t, "foreign"))
+			case 1, 3:
+				if ia < len(seqs[prefixes[0]]) {
+					list = append(list, seqs[prefixes[0]][ia])
+					ia++
+				}
+			case 2:
+				if ib < len(seqs[prefixes[1]]) {
+					list = append(list, seqs[prefixes[1]][ib])
+					ib++
+				}
+			}
+		}
+		order := []string{prefixes[0], prefixes[1], prefixes[0], prefixes[1]}
+		if rapid.Bool().Draw(t, "fetchFirst") {
+			order = []string{prefixes[1], prefixes[0], prefixes[1], prefixes[0]}
+		}
+		desc := func() any {
+			return map[string]any{"payload_lengths": []int{len(vals[prefixes[0]]), len(vals[prefixes[1]])}, "list_entries": len(list), "first_entry_is_chunk": strings.HasPrefix(list[0], "v1-nodee")}
+		}
+		rec.Case("two-payloads", strings.Join(list, "\x00"), true, desc)
+		for i, p := range order {
+			var got string
+			var err error
+			if pv, stack := vkit.Guard(func() { got, err = nodetls.CombineFromNextProtos(p, list) }); pv != nil {
+				vkit.Violate(t, prop, "C20/panic/combine-wellformed", fmt.Sprintf("CombineFromNextProtos panicked: %v", pv), map[string]any{"stack": stack})
+				return
+			}
+			if err != nil || got != vals[p] {
+				vkit.Violate(t, prop, "C20/roundtrip/two-payloads", fmt.Sprintf("scan %d (prefix %q) of a list carrying one payload under each request prefix returned %d bytes (err=%v) instead of that prefix's %d-byte payload", i+1, p, len(got), err, len(vals[p])), desc())
+				return
+			}
+		}
+	})
 }
 
 func boundaryLengths(prefix string, max int) []int {
